@@ -72,6 +72,13 @@ def snap(agent, eval_loop=1):
             "learn_step": int(getattr(agent, "learn_step", 1)), "batch_size": int(agent.batch_size)}
 
 
+def tour_eval_loop(case):
+    """TournamentSelection.eval_loop: the training function's eval_loop, but 1 when that is 3 (a mean over three fitness
+    values is not dyadic: keeps the elite comparison exact)"""
+    e = case.get("eval_loop", 1)
+    return int(case.get("tour_eval_loop", e if e <= 2 else 1))
+
+
 def build(case, log, ckdir):
     """environment, population, memory and the keyword arguments of the training function"""
     from gymnasium import spaces
@@ -177,6 +184,13 @@ def run_loop(case, build_dir: Path, guard_s=60):
     patched = []
     try:
         env, pop, memory, kw = build(case, log, ckdir)
+        if case.get("perm"):            # the caller hands the population over in another index order
+            pop = [pop[i] for i in case["perm"]]
+        if case.get("preset"):          # ... with history: counters at s, k earlier generations, one clearly best individual
+            ps = case["preset"]
+            for a in pop:
+                a.steps = [int(ps["steps"])] * (int(ps["nfit"]) + 1)
+                a.fitness = [100.0 if int(a.index) == int(ps.get("best", -1)) else 0.0] * int(ps["nfit"])
         obs["pop_in"] = len(pop)
         obs["pop_in_indices"] = [int(a.index) for a in pop]
         cls = type(pop[0])
@@ -256,7 +270,7 @@ def run_loop(case, build_dir: Path, guard_s=60):
         tkw = dict(kw)
         if case.get("evo"):
             tkw["tournament"] = Tour(case.get("tsize", 2), bool(case.get("elitism", True)),
-                                     case.get("tour_pop", len(pop)), eval_loop)
+                                     case.get("tour_pop", len(pop)), tour_eval_loop(case))
             mk = case.get("mut", "none")
             tkw["mutation"] = Mut(no_mutation=1.0 if mk == "none" else 0.2,
                                   architecture=0.4 if mk == "arch" else 0.0, new_layer_prob=0.5,
@@ -288,33 +302,57 @@ def run_loop(case, build_dir: Path, guard_s=60):
         if memory is not None:
             args["memory"] = memory
         obs["stage"] = "train"
-        # guard on the CPU time of this process (not wall clock: a loaded machine must not produce a false alarm)
-        old = signal.signal(signal.SIGPROF, _alarm)
-        signal.setitimer(signal.ITIMER_PROF, float(guard_s))
-        try:
-            with contextlib.redirect_stdout(io.StringIO()), contextlib.redirect_stderr(io.StringIO()):
-                ret_pop, ret_fit = train(**args)
-        finally:
-            signal.setitimer(signal.ITIMER_PROF, 0.0)
-            signal.signal(signal.SIGPROF, old)
+        # ---- one or several calls on the same population / memory / environment ("resume": the population a call
+        #      returned is handed to the next call with another budget)
+        budgets = list(case.get("budgets") or [case["max_steps"]])
+        segments = []
+        cur_pop = pop
+        for bi, budget in enumerate(budgets):
+            seg = {"completed": False, "error": None, "max_steps": int(budget), "call": bi,
+                   "start": [{"index": int(a.index), "steps": [int(x) for x in a.steps],
+                              "fitness": [float(np.mean(f)) for f in a.fitness]} for a in cur_pop],
+                   "mem_start": int(getattr(memory, "counter", 0)) if memory is not None else 0,
+                   "pop_in": len(cur_pop), "pop_in_indices": [int(a.index) for a in cur_pop]}
+            segments.append(seg)
+            off = len(log)
+            args["pop"] = cur_pop
+            args["max_steps"] = int(budget)
+            # guard on the CPU time of this process (not wall clock: a loaded machine must not produce a false alarm)
+            old = signal.signal(signal.SIGPROF, _alarm)
+            signal.setitimer(signal.ITIMER_PROF, float(guard_s))
+            try:
+                try:
+                    with contextlib.redirect_stdout(io.StringIO()), contextlib.redirect_stderr(io.StringIO()):
+                        ret_pop, ret_fit = train(**args)
+                finally:
+                    signal.setitimer(signal.ITIMER_PROF, 0.0)
+                    signal.signal(signal.SIGPROF, old)
+            except Exception:
+                seg["log"] = log[off:]
+                raise
+            seg["completed"] = True
+            seg["final"] = [snap(a, eval_loop) for a in ret_pop]
+            seg["final_fp"] = [fingerprint(a) for a in ret_pop]
+            seg["ret_fit_rows"] = [(len(r) if isinstance(r, (list, tuple)) else -1) for r in ret_fit]
+            seg["files"] = sorted(p.name for p in ckdir.glob("*"))
+            # checkpoints written by the loop (right after a mutation, no learn step in between) can be loaded back
+            seg["reloaded"] = []
+            for pth in sorted(ckdir.glob("ck_*.pt"))[-2:] + sorted(ckdir.glob("elite*.pt"))[:1]:
+                try:
+                    a2 = cls.load(str(pth))
+                    seg["reloaded"].append({"file": pth.name, "ok": True, "index": int(a2.index), "steps": [int(x) for x in a2.steps],
+                                            "nfit": len(a2.fitness), "learn_step": int(getattr(a2, "learn_step", 1)),
+                                            "batch_size": int(a2.batch_size)})
+                except Exception as e:
+                    seg["reloaded"].append({"file": pth.name, "ok": False, "error": f"{type(e).__name__}: {str(e)[:200]}"})
+            for pth in ckdir.glob("*"):
+                pth.unlink()
+            if memory is not None:
+                seg["mem_len"] = int(len(memory))
+            seg["log"] = log[off:]
+            cur_pop = ret_pop
         obs["completed"] = True
         obs["stage"] = "done"
-        obs["final"] = [snap(a, eval_loop) for a in ret_pop]
-        obs["final_fp"] = [fingerprint(a) for a in ret_pop]
-        obs["ret_fit_rows"] = [(len(r) if isinstance(r, (list, tuple)) else -1) for r in ret_fit]
-        obs["files"] = sorted(p.name for p in ckdir.glob("*"))
-        # checkpoints written by the loop (right after a mutation, no learn step in between) can be loaded back
-        obs["reloaded"] = []
-        for pth in sorted(ckdir.glob("ck_*.pt"))[-2:] + sorted(ckdir.glob("elite*.pt"))[:1]:
-            try:
-                a2 = cls.load(str(pth))
-                obs["reloaded"].append({"file": pth.name, "ok": True, "index": int(a2.index), "steps": [int(x) for x in a2.steps],
-                                        "nfit": len(a2.fitness), "learn_step": int(getattr(a2, "learn_step", 1)),
-                                        "batch_size": int(a2.batch_size)})
-            except Exception as e:
-                obs["reloaded"].append({"file": pth.name, "ok": False, "error": f"{type(e).__name__}: {str(e)[:200]}"})
-        if memory is not None:
-            obs["mem_len"] = int(len(memory))
     except Timeout as e:
         obs["error"] = "Timeout: " + str(e)
     except Exception as e:  # the implementation raised: an observation, not a harness error
@@ -328,7 +366,20 @@ def run_loop(case, build_dir: Path, guard_s=60):
         for c, n, o in reversed(patched):
             setattr(c, n, o)
         shutil.rmtree(ckdir, ignore_errors=True)
-    obs["gens"] = parse_log(log, obs.get("pop_in", case["pop"]))
+    segs = locals().get("segments") or []
+    for seg in segs:
+        seg["gens"] = parse_log(seg.pop("log", []), seg["pop_in"])
+    if segs and obs.get("error"):
+        last = segs[-1]
+        last["error"] = obs["error"]; last["where"] = obs.get("where"); last["harness_fault"] = obs.get("harness_fault")
+        last["stage"] = obs.get("stage")
+    obs["segments"] = segs
+    if segs:           # the keys of the last call are mirrored at top level (single-call cases look as before)
+        for k, v in segs[-1].items():
+            if k not in ("error", "completed"):
+                obs[k] = v
+    else:
+        obs["gens"] = []
     obs["n_events"] = len(log)
     return obs
 
@@ -408,7 +459,7 @@ def parse_log(log, npop):
                 phase = "post"
             cur["saves"].append(ev[2])
             cur.setdefault("saved_agents", {})[ev[2]] = {"index": ev[3], "steps": ev[4]}
-    if cur["tests"] or cur["rollouts"] or cur["pre"]:
+    if cur["tests"] or cur["rollouts"]:      # a call whose budget is already met only runs the pre-training mutation
         gens.append(cur)
     # drop python ids (not stable, not part of any comparison)
     for g in gens:
